@@ -168,7 +168,7 @@ def make_run(opname, uname, client):
                 return dict(resp, es=es, ei=ei, varbinds=list(pdu["varbinds"]) if echo else [])
 
             ag.response_hook = answer_with_error
-        sender = client.sender
+        sender = world.sender_of(client)
         sender.handle = ag.handle
         sender.calls = []
         sender.limit = horizon
